@@ -386,7 +386,12 @@ def faithfulness(stmt, info, rec, rng, st):
             for r in range(len(rows)):
                 user = float(rows[r] @ x - rhs[r])
                 internal = float(a_int[r] @ z - b_int[r])
-                tol = 1e-12 * (1.0 + float(np.abs(rows[r]) @ np.abs(x)) + abs(rhs[r]))
+                # rounding is relative to the terms the internal computation works with: under scaling these are
+                # |A| (|factor z| + |shift|), which dwarf |A||x| when a bound is huge
+                terms = np.abs(x)
+                terms = terms.copy()
+                terms[free] = np.abs(info["factor"] * z) + np.abs(info["shift"])
+                tol = 1e-12 * (1.0 + float(np.abs(rows[r]) @ terms) + abs(rhs[r]))
                 st["c10.faithful_rows"] += 1
                 if not abs(user - internal) <= tol:
                     return [Viol("C10", "faithful", "linear %s row %d: the solver's residual is %r, the user's is %r at "
@@ -487,6 +492,14 @@ def remap_faults(plan, order):
 def noleak_verdict(ra, rb, info, what):
     if rb.exc is not None:
         return [Viol("C10", "noleak", "the explicitly restated problem raised %s" % rb.exc["type"], key="raise:" + what)]
+    fa = ra.probe.final if ra.probe is not None else None
+    fb = rb.probe.final if rb.probe is not None else None
+    if fa is not None and fb is not None:
+        for key in ("maxfev", "maxiter", "nb_points", "rhoend"):
+            if fa.get(key) != fb.get(key):
+                return [Viol("C10", "noleak", "the completed option %s is %r for the statement as given and %r for the "
+                             "explicitly restated problem: a default depends on the eliminated variables or the scaling"
+                             % (key, fa.get(key), fb.get(key)), key="default_option:" + key)]
     ta, r1 = trace(ra)
     tb, r2 = trace(rb)
     fixed = info["fixed_idx"]
